@@ -700,6 +700,13 @@ class RequestHandler:
                 raise http.cookies.CookieError(
                     f"Invalid cookie attribute {attr_name}={attr_value!r} for cookie {name!r}"
                 )
+        # Format the expiry before touching the jar: a timestamp that cannot be
+        # represented must not leave a half-built cookie behind.
+        if expires_days is not None and not expires:
+            expires = datetime.datetime.now(datetime.timezone.utc) + datetime.timedelta(
+                days=expires_days
+            )
+        expires_text = httputil.format_timestamp(expires) if expires else None
         if not hasattr(self, "_new_cookie"):
             self._new_cookie: http.cookies.SimpleCookie = http.cookies.SimpleCookie()
         previous = self._new_cookie.get(name)
@@ -709,12 +716,8 @@ class RequestHandler:
         morsel = self._new_cookie[name]
         if domain:
             morsel["domain"] = domain
-        if expires_days is not None and not expires:
-            expires = datetime.datetime.now(datetime.timezone.utc) + datetime.timedelta(
-                days=expires_days
-            )
-        if expires:
-            morsel["expires"] = httputil.format_timestamp(expires)
+        if expires_text is not None:
+            morsel["expires"] = expires_text
         if path:
             morsel["path"] = path
         if max_age is not None:
